@@ -370,6 +370,9 @@ pub fn run_check(chk: &dyn Check, cfg: &RunConfig) -> i32 {
                 "clock_advances": a.stats.advances,
                 "idle_timeout_closes": a.stats.idle_closes,
                 "write_blocked_observed": a.stats.write_blocked_seen,
+                "thread_preemptions": a.counters.get("preemptions").copied().unwrap_or(0),
+                "thread_context_switches": a.counters.get("context_switches").copied().unwrap_or(0),
+                "accept_errors": a.counters.get("accept_errors_injected").copied().unwrap_or(0),
             }),
         );
         cov.insert("frame_classes".into(), json!(a.stats.classes));
